@@ -72,6 +72,11 @@ def run(ctx):
     for k in range(n):
         cur, e, r_e, r_d = beam(rng)
         r = grid(rng, r_e, r_d, int(rng.choice([60, 120, 240, 400])))
+        if k == 3:
+            # a fine mesh that is only mildly non-uniform (cells of ~0.1-0.5 um, 1 % wider outside the beam): the finite-difference system
+            # of *this* mesh must be used, whatever an absolute tolerance in metres would say about "uniform"
+            r_e = min(r_e, 1.5e-4); dr0 = r_e / 300
+            r = np.concatenate([np.arange(300) * dr0, r_e + np.arange(0, int(1.5 * r_e / (1.01 * dr0)) + 1) * 1.01 * dr0])
         ng = r.size
         nl, kT, q = species(rng, cur, e)
         # "the ion-free result equals the pure beam potential": one ion-free call (what Device.get does) and one with neutrals only
